@@ -1,3 +1,4 @@
+import DivanModel.Model.LineCodec
 import DivanModel.Model.EntryList
 import DivanModel.Driver.Util
 import DivanModel.Model.Prog
@@ -274,16 +275,11 @@ def msEq [BEq α] (a b : List α) : Bool :=
 
 def lineAt (out : String) (k : Nat) : String := (out.splitOn "\n").getD k ""
 
-/-- the name printed on a tree line: drop box-drawing prefix, cut at the first double space -/
+/-- the name printed on a tree line: drop box-drawing prefix, cut at the first double space
+    (`LineCodec.cutLabel`: the cutter the theorems of `Props/C20Codec` are about) -/
 def labelOf (line : String) : String :=
   let cs := line.toList.dropWhile fun c => c = '│' || c = ' ' || c = '├' || c = '╰' || c = '─'
-  let rec cut : List Char → List Char
-    | ' ' :: ' ' :: _ => []
-    | ' ' :: '│' :: _ => []
-    | ' ' :: 'T' :: ' ' :: '│' :: _ => []
-    | c :: r => c :: cut r
-    | [] => []
-  String.ofList (cut cs)
+  String.ofList (LineCodec.cutLabel cs)
 
 /-- is every sibling set of the (filtered, sorted) tree well-formed in the sense of `Prog.sibOk`, the
     hypothesis of the order theorems in `Props/C16Order.lean`? -/
@@ -292,20 +288,11 @@ partial def levelsOk (ts : List Tree) : Bool :=
     | .parent _ _ ch => levelsOk ch
     | .leaf .. => true
 
-/-- `("│  " | "   ")* ("├─ " | "╰─ ")` split off a line; rows without a branch glyph have no prefix -/
+/-- `("│  " | "   ")* ("├─ " | "╰─ ")` split off a line; rows without a branch glyph have no prefix
+    (`LineCodec.splitPrefix`; the prefix text is the part of the line it consumed) -/
 def treePrefix (line : String) : String × String :=
-  let rec go (fuel : Nat) (acc : List Char) (cs : List Char) : Option (List Char × List Char) :=
-    match fuel with
-    | 0 => none
-    | fuel + 1 =>
-      match cs with
-      | a :: b :: c :: rest =>
-        if (a = '│' ∧ b = ' ' ∧ c = ' ') ∨ (a = ' ' ∧ b = ' ' ∧ c = ' ') then go fuel (c :: b :: a :: acc) rest
-        else if (a = '├' ∨ a = '╰') ∧ b = '─' ∧ c = ' ' then some ((c :: b :: a :: acc).reverse, rest)
-        else none
-      | _ => none
-  match go (line.length + 1) [] line.toList with
-  | some (p, r) => (String.ofList p, String.ofList r)
+  match LineCodec.splitPrefix line.toList with
+  | some (p, _, r) => (String.ofList (line.toList.take (3 * (p.length + 1))), String.ofList r)
   | none => ("", line)
 
 structure TLine where
@@ -315,18 +302,11 @@ structure TLine where
   label : String
   deriving Repr, Inhabited
 
-/-- a row that opens a node: depth, corner/branch, bars, label; `none` for continuation rows -/
+/-- a row that opens a node: depth, corner/branch, bars, label; `none` for continuation rows.
+    This is `LineCodec.parseRow`, the decoder `Props/C20Codec.line_reads_back` proves to invert the
+    painter's rendering of a row. -/
 def parseTLine (line : String) : Option TLine :=
-  if line.isEmpty then none else
-  let (pre, _) := treePrefix line
-  if pre.isEmpty then
-    -- a top-level row starts with its label; continuation rows start with a bar or a blank
-    if line.front = '│' ∨ line.front = ' ' then none else some ⟨0, true, [], labelOf line⟩
-  else
-    let cs := pre.toList
-    let n := cs.length / 3
-    let grp (i : Nat) : Char := cs.getD (3 * i) ' '
-    some ⟨n, grp (n - 1) = '╰', (List.range (n - 1)).map fun i => grp i = '│', labelOf line⟩
+  (LineCodec.parseRow line.toList).map fun r => ⟨r.depth, r.last, r.bars, String.ofList r.label⟩
 
 /-- C20 on the printed text alone: every row's glyphs show its true position - corner exactly on the
     last child of its parent, a continuation bar under exactly those ancestors that have later siblings,
